@@ -58,7 +58,8 @@ POSITIONAL_CFG = {'positional_borda': {'s': 'Borda', 'base': 1}, 'positional_bor
               'positional_modified_borda': {'s': 'ModifiedBorda'}, 'positional_fixed_top3': {'s': 'FixedTop', 'top': 3}}
 STV = {'stv_gregory_hare': ('hare', 'selector'), 'stv_gregory_droop': ('droop', 'selector'),
        'stv_dist_gregory_droop': ('droop', 'distributor')}
-THRESHOLDS = {'rel_threshold_5pc': ('rel_threshold', '1/20', True), 'rel_threshold_third': ('rel_threshold', '1/3', False),
+THRESHOLDS = {'rel_threshold_5pc': ('rel_threshold', '1/20', True), 'rel_threshold_5pc_decimal': ('rel_threshold', '1/20', True),
+              'rel_threshold_5pc_float': ('rel_threshold', '3602879701896397/72057594037927936', True), 'rel_threshold_third': ('rel_threshold', '1/3', False),
               'abs_threshold_2': ('abs_threshold', '2', True)}
 OPENLIST = {'openlist_jump_5pc': {'jump_fraction': '1/20', 'quota': None, 'quota_fraction': '1', 'take_higher': False,
                                   'accept_equal': False, 'list_precedence': False},
